@@ -878,6 +878,164 @@ def unroll_constant_loops(fn: ast.FunctionDef, module_consts: Dict[str, ast.AST]
 
 
 # ---------------------------------------------------------------------------------------------------------------------
+# loop normal form: the same iteration written with itertools plumbing or comprehensions reads like plain nested loops
+_ITER_BUILDERS = {"zip", "chain", "itertools.chain", "sorted", "enumerate", "repeat", "itertools.repeat", "reversed", "list", "tuple",
+                  "getattr", "iter", "filter", "map"}
+
+
+def _no_loop_exit(body: List[ast.stmt]) -> bool:
+    return not _contains(body, (ast.Break, ast.FunctionDef, ast.Lambda, ast.Return)) or not _contains(body, (ast.Break,))
+
+
+def normalise_loops(fn: ast.FunctionDef) -> int:
+    """(1) a local bound once to an iterable expression (zip/chain/sorted/... or a generator) and used once, as (part of) a loop's
+    iterable, is written back into that loop; (2) `for x in chain(A, B)` becomes `for x in A` followed by `for x in B`;
+    (3) `for x, f in zip(X, repeat(F))` becomes `for x in X` with F for f; (4) `r.extend(e for x in X if c)` / `s.update(...)`
+    become explicit loops with `r.append(e)` / `s.add(e)`.  All four keep the order of effects."""
+    done = 0
+    # ---- (1)
+    for _ in range(4):
+        cnt = _bindings(fn)
+        uses: Dict[str, int] = {}
+        for n in _own_nodes(fn):
+            if isinstance(n, ast.Name) and isinstance(n.ctx, ast.Load):
+                uses[n.id] = uses.get(n.id, 0) + 1
+        defs = {}
+        for n in _own_nodes(fn):
+            if isinstance(n, ast.Assign) and len(n.targets) == 1 and isinstance(n.targets[0], ast.Name):
+                nm = n.targets[0].id
+                v = n.value
+                if cnt.get(nm) == 1 and uses.get(nm) == 1 and (
+                        isinstance(v, ast.GeneratorExp) or (isinstance(v, ast.Call) and ast.unparse(v.func) in _ITER_BUILDERS)):
+                    defs[nm] = n
+        if not defs:
+            break
+        changed = False
+
+        def block1(stmts: List[ast.stmt]) -> List[ast.stmt]:
+            nonlocal changed
+            res = []
+            for i, st in enumerate(stmts):
+                for field in ("body", "orelse", "finalbody"):
+                    blk = getattr(st, field, None)
+                    if isinstance(blk, list) and blk and isinstance(blk[0], ast.stmt) and not isinstance(st, (ast.FunctionDef, ast.ClassDef)):
+                        setattr(st, field, block1(blk))
+                res.append(st)
+            # forward a definition into a later loop of the same block when nothing in between can change what it reads
+            out = []
+            pending = {}
+            for st in res:
+                if isinstance(st, ast.Assign) and len(st.targets) == 1 and isinstance(st.targets[0], ast.Name) and \
+                        st.targets[0].id in defs and defs[st.targets[0].id] is st:
+                    pending[st.targets[0].id] = st
+                    out.append(st)
+                    continue
+                if isinstance(st, ast.For):
+                    names = [x for x in ast.walk(st.iter) if isinstance(x, ast.Name) and x.id in pending]
+                    if names:
+                        sub = {x.id: pending[x.id].value for x in names}
+                        st.iter = _Rename({}, sub).visit(st.iter)
+                        ast.fix_missing_locations(st)
+                        for nm in sub:
+                            out.remove(pending.pop(nm))
+                        changed = True
+                elif not isinstance(st, (ast.Assign, ast.Expr, ast.AnnAssign)) or _contains([st], (ast.Call,)) and not (
+                        isinstance(st, ast.Assign) and len(st.targets) == 1 and isinstance(st.targets[0], ast.Name) and st.targets[0].id in defs):
+                    pending = {k: v for k, v in pending.items() if False}       # a statement with effects: stop forwarding
+                out.append(st)
+            return out
+        fn.body = block1(fn.body)
+        if not changed:
+            break
+        done += 1
+
+    # ---- (2) (3) (4)
+    def split(loop: ast.For) -> Optional[List[ast.stmt]]:
+        it = loop.iter
+        if loop.orelse or not isinstance(it, ast.Call) or it.keywords:
+            return None
+        fname = ast.unparse(it.func)
+        if fname in ("chain", "itertools.chain") and len(it.args) >= 2 and not any(isinstance(a, ast.Starred) for a in it.args) \
+                and not _contains(loop.body, (ast.Break,)):
+            out = []
+            for a in it.args:
+                l2 = copy.deepcopy(loop)
+                l2.iter = copy.deepcopy(a)
+                out.append(l2)
+            return out
+        if fname == "zip" and isinstance(loop.target, ast.Tuple) and len(loop.target.elts) == len(it.args) >= 2:
+            rep_ = [isinstance(a, ast.Call) and ast.unparse(a.func) in ("repeat", "itertools.repeat") and len(a.args) == 1 for a in it.args]
+            if sum(1 for r in rep_ if not r) == 1 and all(isinstance(t, ast.Name) for t, r in zip(loop.target.elts, rep_) if r):
+                stored = {n.id for st in loop.body for n in ast.walk(st) if isinstance(n, ast.Name) and isinstance(n.ctx, ast.Store)}
+                sub = {t.id: a.args[0] for t, a, r in zip(loop.target.elts, it.args, rep_) if r}
+                if not (stored & set(sub)) and all(isinstance(v, (ast.Name, ast.Attribute, ast.Constant, ast.IfExp)) for v in sub.values()):
+                    k = rep_.index(False)
+                    l2 = copy.deepcopy(loop)
+                    l2.target = copy.deepcopy(loop.target.elts[k])
+                    l2.iter = copy.deepcopy(it.args[k])
+                    l2.body = [_Rename({}, sub).visit(copy.deepcopy(st)) for st in loop.body]
+                    return [l2]
+        return None
+
+    def lower_comp(st: ast.stmt) -> Optional[List[ast.stmt]]:
+        if not (isinstance(st, ast.Expr) and isinstance(st.value, ast.Call) and isinstance(st.value.func, ast.Attribute)
+                and st.value.func.attr in ("extend", "update") and len(st.value.args) == 1 and not st.value.keywords):
+            return None
+        comp = st.value.args[0]
+        if not isinstance(comp, (ast.GeneratorExp, ast.ListComp, ast.SetComp)):
+            return None
+        if any(g.is_async for g in comp.generators):
+            return None
+        single = "append" if st.value.func.attr == "extend" else "add"
+        inner: List[ast.stmt] = [ast.Expr(value=ast.Call(func=ast.Attribute(value=copy.deepcopy(st.value.func.value), attr=single, ctx=ast.Load()),
+                                                          args=[copy.deepcopy(comp.elt)], keywords=[]))]
+        for g in reversed(comp.generators):
+            body = inner
+            if g.ifs:
+                test = g.ifs[0] if len(g.ifs) == 1 else ast.BoolOp(op=ast.And(), values=list(g.ifs))
+                body = [ast.If(test=copy.deepcopy(test), body=body, orelse=[])]
+            inner = [ast.For(target=copy.deepcopy(g.target), iter=copy.deepcopy(g.iter), body=body, orelse=[], type_comment=None)]
+            for t in ast.walk(inner[0].target):
+                if isinstance(t, ast.Name):
+                    t.ctx = ast.Store()
+        return inner
+
+    def block2(stmts: List[ast.stmt]) -> List[ast.stmt]:
+        nonlocal done
+        res: List[ast.stmt] = []
+        for st in stmts:
+            low = lower_comp(st)
+            if low is not None:
+                for x in low:
+                    ast.copy_location(x, st)
+                    ast.fix_missing_locations(x)
+                done += 1
+                res += block2(low)
+                continue
+            if isinstance(st, ast.For):
+                sp = split(st)
+                if sp is not None:
+                    for x in sp:
+                        ast.fix_missing_locations(x)
+                    done += 1
+                    res += block2(sp)
+                    continue
+            for field in ("body", "orelse", "finalbody"):
+                blk = getattr(st, field, None)
+                if isinstance(blk, list) and blk and isinstance(blk[0], ast.stmt) and not isinstance(st, (ast.FunctionDef, ast.ClassDef)):
+                    setattr(st, field, block2(blk))
+            if isinstance(st, ast.Try):
+                for h in st.handlers:
+                    h.body = block2(h.body)
+            res.append(st)
+        return res
+    fn.body = block2(fn.body)
+    if done:
+        _renumber(fn)
+    return done
+
+
+# ---------------------------------------------------------------------------------------------------------------------
 # fourth canonicalisation: named constants (module level, bound once, immutable literal) are replaced by their value
 def _literal_const(v: ast.AST, known: Dict[str, ast.AST]) -> Optional[ast.AST]:
     """an immutable literal: str / int / bool / None, a tuple or frozenset of such, `A + 1` of known constants"""
@@ -944,7 +1102,7 @@ def normalise(modules: Dict[str, ast.Module]) -> dict:
     il = Inliner(modules)
     st = il.run()
     st["_fully_inlined"] = getattr(il, "fully_inlined", set())
-    n = u = 0
+    n = u = lp = 0
     if not os.environ.get("SA_NO_INLINE"):
         st["constants_folded"] = sum(fold_named_constants(tree) for tree in modules.values())
         for tree in modules.values():
@@ -953,7 +1111,10 @@ def normalise(modules: Dict[str, ast.Module]) -> dict:
             for _cls, fn in Inliner._hosts(tree):
                 reduce_lambda_calls(fn)
                 u += unroll_constant_loops(fn, consts)
+                lp += normalise_loops(fn)
+                u += unroll_constant_loops(fn, consts)
                 n += propagate_condition_locals(fn)
     st["conditions_propagated"] = n
     st["loops_unrolled"] = u
+    st["loops_normalised"] = lp
     return st
